@@ -81,7 +81,7 @@ def cases(ctx):
     for kind, table in (("api", CASES), ("spec", SPEC_CASES)):
         for cid, rpath, cond, cond_lit, extra, *more in table:
             heavy = "ListValue()" in rpath or "list_value" in rpath
-            params = list(extra) + [("r1", "int" if heavy else U), ("u1", U), ("u2", "int")]
+            params = list(extra) + [("r1", "int" if heavy or cid == "combined" else U), ("u1", "int" if cid == "combined" else U), ("u2", "int")]
             names = ", ".join(p[0] for p in params)
             doc = DOC if cid != "spec.escaped.hit" else DOC[:-1] + ", 'p': {'path': ['ref']}}"
             path_src = f"DataPath.from_part_specs(*{rpath})"
